@@ -188,6 +188,14 @@ Proof.
   eapply parse_float_canonical_lemma. exact Hl.
 Qed.
 
+Theorem B64_ref_db_idempotent_parsed : forall (B : db B64) (N : nat),
+  depth_lt B64 B N ->
+  (forall r els x a, In (r, els) B -> In (x, a) els -> exists l, of_lexeme B64 l = Some a) ->
+  keys (ref_db B64 B N) = keys B /\
+  (forall r v x a, In (r, v) (ref_db B64 B N) -> In (x, a) v -> lookup x (ref_db B64 B N) = None) /\
+  ref_db B64 (ref_db B64 B N) N = ref_db B64 B N.
+Proof. intros B N Hd Hp. apply B64_ref_db_idempotent; [exact Hd|apply parsed_book_canonical; exact Hp]. Qed.
+
 (** * the book the program loads: every coefficient comes from [of_lexeme]
 
     For any [Num] and any property [P] of the results of [of_lexeme]: every
